@@ -194,6 +194,63 @@ def run_cell(exp, label, prim, detail):
         return bad
 
 
+def recognition(v):
+    """The events of Table 9-10 that stand for received PDUs (Evt3, 4, 6, 10, 12, 13, 16, 19) are produced by the
+    provider from BYTES.  For every state with a connection, every kind of PDU - valid ones, an unknown type, and PDUs
+    of a known type whose content cannot be decoded - goes through the real provider loop: exactly one event must come
+    out, the type's own or Evt19 ("unrecognized or invalid PDU"), and the loop must survive.  Returns the number run."""
+    from . import ulrun as U
+    n = 0
+    rq = U.frame('RQ')[1]
+    ac = U.frame('AC')[1]
+    inputs = [(k, U.frame(k, f)[1] if f is not None else U.frame(k)[1], ev) for k, f, ev in
+              (('RQ', None, 6), ('AC', None, 3), ('RJ', [1, 2, 3], 4), ('RLRQ', None, 12), ('RLRP', None, 13), ('AB', [2, 5], 16))]
+    m = U.MsgPlan(9)
+    inputs.append(('PD', U.frame('PD', pdvs=[(fl, 9, x, 1) for fl, x in m.pdvs])[1], 10))
+    inputs.append(('unknown-type', bytes([0x09, 0, 0, 0, 0, 4, 1, 2, 3, 4]), 19))
+    inputs.append(('unknown-type-empty', bytes([0x55, 0, 0, 0, 0, 0]), 19))
+    # known type, content not decodable: a byte that is no text in the AE title fields / a PDV running past the PDU
+    inputs.append(('RQ-title-not-text', rq[:10] + b'\xff\xe9' + rq[12:], None))
+    inputs.append(('AC-title-not-text', ac[:26] + b'\xe9\xff' + ac[28:], None))
+    inputs.append(('PD-pdv-overrun', bytes([0x04, 0, 0, 0, 0, 8, 0, 0, 1, 0, 1, 3, 0, 0]), None))
+    for s in (2, 3, 5, 6, 7, 8, 9, 10, 11, 12):
+        for label, blob, want in inputs:
+            n += 1
+            run = U.Run(False)
+            try:
+                p = run.p
+                while p.event:
+                    p.event.popleft()
+                p.state_machine.current_state = s - 1
+                if s in (2,):
+                    p.timer.start()
+                sock = run._cur_sock()
+                sock.rx += blob
+                n0 = len(p.actions)
+                died = None
+                try:
+                    for _ in range(4):
+                        exc = p.step()
+                        if exc is not None:
+                            died = exc
+                            break
+                        if len(p.actions) > n0:
+                            break
+                except BaseException as exc:      # noqa (Hang included)
+                    died = exc
+                got = [a[0] + 1 for a in p.actions[n0:]]
+                ok = died is None and len(got) >= 1 and (got[0] == want if want is not None else got[0] in (19, {'RQ': 6, 'AC': 3, 'PD': 10}[label.split('-')[0]]))
+                if not ok:
+                    v.report({'site': 'dulprovider._process_incoming', 'action': 'recognition', 'event': want or 19, 'state': s},
+                             'Sta%d, received %s: %s; events produced %s (Table 9-10 expects %s)' % (
+                                 s, label, ('the provider loop died with %s: %s' % (type(died).__name__, died)) if died is not None else 'loop alive',
+                                 ['Evt%d' % g for g in got], 'Evt%d' % want if want else 'the event of its type or Evt19'),
+                             replay={'cell': [s, want or 19, False], 'bytes': blob.hex()})
+            finally:
+                run.close()
+    return n
+
+
 def main(tier='quick'):
     v = Verdict('C04', tier)
     r = tlc.run('ULFsmCells', 'ULFsmCells.cfg', workers=1, coverage=True)
@@ -228,11 +285,12 @@ def main(tier='quick'):
         v.report({'site': 'fsm.StateMachine', 'action': act, 'event': e, 'state': s},
                  msgs[0] + (' (+%d more)' % (len(msgs) - 1) if len(msgs) > 1 else ''),
                  replay={'cell': [s, e, req]})
+    n_rec = recognition(v)
     ev = {
         'tier': tier, 'level': 'model_checking',
         'coverage': {
             'states': r.distinct, 'transitions': len(cells),
-            'traces_validated_against_impl': n_run,
+            'traces_validated_against_impl': n_run, 'pdu_recognition_runs_through_the_provider': n_rec,
             'samples': samples,
             'exhaustive': True,
             'cells_defined_per_role': 123, 'cells_total_per_role': 247,
